@@ -34,6 +34,7 @@ type w5Actor struct {
 	IP      string `json:"ip,omitempty"`
 	Cookies bool   `json:"cookies,omitempty"` // the viewer keeps cookies (else the secret travels in the query)
 	Bearer  bool   `json:"bearer,omitempty"`  // credentials in "Authorization: Bearer user:pass" instead of Basic
+	XFF     string `json:"xff,omitempty"`     // viewer: every request carries this forged X-Forwarded-For (no proxy is trusted)
 	StartMs int64  `json:"start_ms,omitempty"`
 	Ops     []w5Op `json:"ops"`
 }
@@ -127,6 +128,10 @@ func w5Gen(rng *rand.Rand, tier string) (*w5Body, simrt.Sched) {
 		a := w5Actor{Kind: "viewer", Path: pick("cam1", "cam1", "cam2"), User: c[0], Pass: c[1], IP: ips[rng.Intn(len(ips))],
 			Cookies: rng.Intn(2) == 0, Bearer: rng.Intn(4) == 0, StartMs: int64(1000 + rng.Intn(4000))}
 		a.Ops = append(a.Ops, w5Op{Op: "play", N: int64(2 + rng.Intn(6)), Ms: []int64{200, 500, 1000, 2500}[rng.Intn(4)]})
+		if rng.Intn(6) == 0 {
+			// the address-restricted user from an address that is not allowed, claiming an allowed one
+			a.User, a.Pass, a.IP, a.XFF = "lan", "lanpw", pick("192.168.7.7", "2001:db8::7"), "10.0.0.5"
+		}
 		if crashy && rng.Intn(2) == 0 {
 			// keeps polling across the failure of the muxer instance and its re-creation
 			a.Ops[0].N, a.Ops[0].Ms = int64(6+rng.Intn(8)), 2500
